@@ -3,6 +3,7 @@
 O1  every wire index is renumbered in both renumbering passes (sweep and final numbering)
 O2  the NOT encoding (xor with constant 1) is the only special case of the final numbering; constants become the two first gates
 O3  the de-duplication switch only switches the cache
+O4  sibling consistency of the xor-cancellation rewrites: the operand tested for cancellation is not the one returned
 """
 from .. import mir
 from ..core import AnchorMissing, Finding, RuleResult
@@ -220,5 +221,72 @@ def rule_o3(ctx):
     return res
 
 
+def rule_o4(ctx):
+    res = RuleResult("O4", "xor-cancellation rewrites return the operand that was NOT matched")
+    from .C02 import _dominated_by_edges
+    fid = "circuit::CircuitBuilder::push_xor"
+    body = ctx.body(fid)
+
+    def xor_operands(op):
+        out = set()
+        if op["k"] not in ("copy", "move"):
+            return out
+        for (r, p) in body.trace(op["place"], through={}):
+            if r[0] == "call" and "as Xor" in p:
+                i = p[p.index("as Xor") + 1] if p.index("as Xor") + 1 < len(p) else None
+                if i in ("0", "1"):
+                    out.add((r[1], i))
+        return out
+    # comparisons: (switch block, true target, {(gate, i)})
+    cmps = []
+    for b, blk in enumerate(body.blocks):
+        for st in blk["stmts"]:
+            if st["k"] == "assign" and st["rv"]["k"] == "binop" and st["rv"]["op"] == "Eq":
+                ops = xor_operands(st["rv"]["l"]) | xor_operands(st["rv"]["r"])
+                if not ops:
+                    continue
+                d = st["place"]["l"]
+                for x in range(body.n):
+                    tt = body.term(x)
+                    if tt and tt["k"] == "switch" and tt["discr"]["k"] in ("copy", "move") and tt["discr"]["place"]["l"] == d:
+                        false_t = {tg for v, tg in tt["targets"] if v == 0}
+                        for s_ in body.succs(x):
+                            if s_ not in false_t:
+                                cmps.append((x, s_, ops))
+    n = 0
+    for b, blk in enumerate(body.blocks):
+        if blk["cleanup"]:
+            continue
+        rets = set()
+        sp = None
+        for st in blk["stmts"]:
+            if st["k"] == "assign" and st["place"]["l"] == 0 and not st["place"]["p"] and st["rv"]["k"] == "use":
+                rets |= xor_operands(st["rv"]["op"])
+                sp = st["sp"]
+        t = blk["term"]
+        if t and t["k"] == "call" and t["dest"]["l"] == 0 and not t["dest"]["p"]:
+            for a in t["args"][1:]:
+                rets |= xor_operands(a)
+            sp = t["sp"]
+        if not rets:
+            continue
+        n += 1
+        bad = None
+        for (sw, tgt, ops) in cmps:
+            if _dominated_by_edges(body, {(sw, tgt)}, b):
+                both = ops & rets
+                if both:
+                    bad = both
+        if bad:
+            res.bad(Finding("O4", fid, "rewrite returns the matched operand",
+                            "an operand of an existing XOR gate is tested for cancellation and then returned itself instead of its sibling: x ^ (x' ^ z) no longer equals the rewritten value",
+                            sp))
+        else:
+            res.ok({"site": "return at line %d" % sp[1], "returns": sorted("operand %s of gate read in bb%d" % (i, g) for g, i in rets)})
+    if (n < 6) and not res.findings:
+        raise AnchorMissing("O4: expected the xor-cancellation returns of push_xor (10 on the pinned tree), found %d" % n)
+    return res
+
+
 def run(ctx):
-    return ctx.run_rules([rule_o1, rule_o2, rule_o3])
+    return ctx.run_rules([rule_o1, rule_o2, rule_o3, rule_o4])
